@@ -143,6 +143,7 @@ struct World {
 	// C16 "attached later, or detached midway": in the toggling logger mode the logger is also attached / detached from
 	// inside callbacks, between two deliveries of one call (decided by the aux stream, like every logger decision)
 	void (*attachHook)(Inst&, bool) = nullptr;
+	void (*saveInCallbackHook)(Inst&) = nullptr;   // C12: save() called from inside a callback (a const observer)
 	bool logToggleInCallbacks = false;
 	bool snapPending = false;
 	bool snapSuccMay[32] = {}, snapFailMay[32] = {}, snapTasksAdded = false;   // what may be outstanding in the authority when the snapshot is taken
